@@ -88,16 +88,26 @@ def compare_with_spec(cases, H, style_seed=None, extra_text=""):
         atoms = atoms_of_rules(rules)
         style = random.Random(style_seed * 1000003 + idx) if style_seed is not None else None
         text = tl.render_prog(rules, style) + extra_text
+        inp = text
+        if style is not None and not extra_text and style.random() < 0.2:
+            # two inputs: every input starts in the initial part, whatever the previous one ended with — also when its last line
+            # is a comment without a newline
+            ini = [x for x in rules if x[1] == "initial"]
+            rest = [x for x in rules if x[1] != "initial"]
+            if ini and rest:
+                tail = style.choice(["\n% end of the first input", " % trailing comment", "", "\n"])
+                inp = [tl.render_prog(rest, None) + tail, "\n".join(tl.render_rule(x, None, with_part=False) for x in ini) + style.choice(["", "\n"])]
+                text = "\n%%% next input\n".join(inp)
         # the brute-force enumerator is exponential in atoms x states: keep every instance within MAX_BITS
         Hc = min(Hcase, MAX_BITS // max(1, len(atoms)) - 1)
         if Hc < 0:
             continue
-        metas.append((idx, rules, atoms, text, Hc, len(lines)))
+        metas.append((idx, rules, atoms, (text, inp), Hc, len(lines)))
         lines += spec_tsm_lines(rules, atoms, Hc)
     outs = SPEC.batch(lines, timeout=3000)
     fails = []
-    for (idx, rules, atoms, text, Hc, off) in metas:
-        r = impl_models(text, Hc)
+    for (idx, rules, atoms, (text, inp), Hc, off) in metas:
+        r = impl_models(inp, Hc)
         if r[0] == "err":
             if r[1] == "Timeout":
                 continue      # slow is not wrong: the case is skipped (telingo's clause unfolding can be exponential)
